@@ -450,6 +450,179 @@ fn check11(ctx: &Ctx, c: &Case11, probe: &mut Probe) -> Check {
     Ok(())
 }
 
+// ---------------------------------------------------------------------------
+// store-level logs that span several segment files
+//
+// The runtime host keeps everything in one segment. The filesystem store itself rotates
+// segments; a log spread over sealed and active segment files is built here directly through
+// `FilesystemWalStore` (transactions chained to each other as a real writer chains them) and
+// damaged per file, per record and per transaction; whole segment files are also removed.
+
+#[derive(Clone, Debug, Serialize, Deserialize)]
+pub struct CaseSeg {
+    /// per transaction: rotate the segment after it?
+    pub rotate_after: Vec<bool>,
+    /// (file pick, mutation applied inside that file)
+    pub muts: Vec<(u16, Mutation)>,
+}
+
+fn case_seg() -> impl Strategy<Value = CaseSeg> {
+    (prop::collection::vec(prop::bool::weighted(0.45), 2..8), prop::collection::vec((any::<u16>(), mutation()), 16..40)).prop_map(|(rotate_after, muts)| CaseSeg { rotate_after, muts })
+}
+
+fn d(label: &str) -> [u8; 32] {
+    *blake3::hash(label.as_bytes()).as_bytes()
+}
+
+struct SegLog {
+    /// (relative file name, bytes) in segment order
+    files: Vec<(String, Vec<u8>)>,
+    side: std::collections::BTreeMap<String, Vec<u8>>,
+    history: Vec<WalRecoveredTransaction>,
+}
+
+fn build_seg_log(ctx: &Ctx, c: &CaseSeg) -> Result<SegLog, Fail> {
+    use warp_core::causal_wal::{
+        build_submission_acceptance_transaction, AffectedFrontier, AffectedFrontierKind, FilesystemWalStore, Lsn, PayloadCodecId, PayloadSchemaId, SubmissionAcceptanceRecord, WalAppendAuthority,
+        WalDurabilityMode, WalStorePort, WalTransactionBuilder, WalTransactionId, WalTransactionKind, WriterEpochId, WriterEpochRequest,
+    };
+    let root = ctx.fast_scratch("c11-seg-build");
+    let r = (|| -> Result<SegLog, Fail> {
+        let herr = |what: &str, e: String| Fail::new("C11/harness/store-level-build", format!("{what}: {e}"));
+        let mut store = FilesystemWalStore::open(&root, WalSegmentId::from_raw(1)).map_err(|e| herr("open", format!("{e:?}")))?;
+        let epoch = WriterEpochId::from_hash(d("c11:epoch"));
+        store
+            .acquire_writer_epoch(WriterEpochRequest { epoch_id: epoch, storage_fencing_token: d("c11:fence"), process_identity: d("c11:process"), host_identity: d("c11:host"), started_at_lsn: Lsn::from_raw(0), previous_epoch_id: None, previous_epoch_final_commit_digest: None, lease_or_lock_evidence: d("c11:lock") })
+            .map_err(|e| herr("epoch", format!("{e:?}")))?;
+        let (mut prev_frame, mut prev_commit) = (d("c11:genesis-frame"), d("c11:genesis-commit"));
+        let mut seg = 1u64;
+        let mut lsn = 0u64;
+        for (i, rot) in c.rotate_after.iter().enumerate() {
+            let builder = WalTransactionBuilder::new(
+                epoch,
+                WalSegmentId::from_raw(seg),
+                WalTransactionId::from_hash(d(&format!("c11:tx:{i}"))),
+                WalTransactionKind::SubmissionIntake,
+                WalAppendAuthority::SubmissionIntake,
+                Lsn::from_raw(lsn),
+                prev_frame,
+                prev_commit,
+                WalDurabilityMode::StrictFilesystem,
+                PayloadCodecId::from_hash(d("c11:codec")),
+                PayloadSchemaId::from_hash(d("c11:schema")),
+                1,
+                1,
+                d("c11:domain"),
+            );
+            let rec = SubmissionAcceptanceRecord { submission_id: d(&format!("c11:sub:{i}")), canonical_envelope_digest: d(&format!("c11:env:{i}")), idempotency_key_digest: None, acceptance_evidence_digest: d(&format!("c11:acc:{i}")) };
+            let t = build_submission_acceptance_transaction(builder, rec, vec![AffectedFrontier { kind: AffectedFrontierKind::SubmissionQueue, before_digest: d(&format!("c11:f:{i}")), after_digest: d(&format!("c11:f:{}", i + 1)) }]).map_err(|e| herr("build", format!("{e:?}")))?;
+            lsn = t.commit.last_lsn.as_u64() + 1;
+            prev_frame = t.frames.last().map(|f| f.digest()).unwrap_or(prev_frame);
+            prev_commit = t.commit.commit_digest;
+            store.append_transaction(t).map_err(|e| herr("append", format!("{e:?}")))?;
+            if *rot {
+                store.rotate_segment(epoch).map_err(|e| herr("rotate", format!("{e:?}")))?;
+                seg += 1;
+            }
+        }
+        drop(store);
+        let rec = recover_filesystem_store(&root, RecoveryAccessMode::ReadOnly).map_err(|e| Fail::new("C11/untampered-log-rejected", format!("multi-segment: {e:?}")))?;
+        if rec.transactions.len() != c.rotate_after.len() {
+            return Err(Fail::new("C11/untampered-log-rejected", format!("multi-segment: {} of {} transactions recovered", rec.transactions.len(), c.rotate_after.len())));
+        }
+        let mut files = Vec::new();
+        for name in segment_files(&root) {
+            files.push((format!("segments/{name}"), std::fs::read(root.join("segments").join(&name)).unwrap_or_default()));
+        }
+        Ok(SegLog { files, side: read_side_files(&root), history: rec.transactions })
+    })();
+    let _ = std::fs::remove_dir_all(&root);
+    r
+}
+
+fn file_log(bytes: &[u8]) -> Log {
+    let records = parse_records(bytes);
+    let mut txns = Vec::new();
+    let mut start = 0usize;
+    for (i, r) in records.iter().enumerate() {
+        if r.kind == 2 {
+            txns.push((start, i + 1));
+            start = i + 1;
+        }
+    }
+    Log { seg: bytes.to_vec(), side: Default::default(), records, txns, history: Vec::new(), snaps: Vec::new(), subs: Vec::new() }
+}
+
+fn check_seg(ctx: &Ctx, c: &CaseSeg, probe: &mut Probe) -> Check {
+    let log = build_seg_log(ctx, c)?;
+    probe.class(format!("segment-files:{}", log.files.len().min(6)));
+    let whole = Log { seg: log.files.iter().flat_map(|(_, b)| b.iter().copied()).collect(), side: log.side.clone(), records: Vec::new(), txns: Vec::new(), history: log.history.clone(), snaps: Vec::new(), subs: Vec::new() };
+    let mut variants: Vec<(String, Vec<(String, Vec<u8>)>, Mutation)> = Vec::new();
+    for (fp, m) in &c.muts {
+        if matches!(m, Mutation::Transplant { .. } | Mutation::SideFlip { .. }) {
+            continue;
+        }
+        let fi = vkit::pick_idx(*fp, log.files.len());
+        let fl = file_log(&log.files[fi].1);
+        if let Some((bytes, _, _)) = apply(m, &fl, None) {
+            let mut files = log.files.clone();
+            files[fi].1 = bytes;
+            variants.push((format!("{} in {}", name_of(m), log.files[fi].0), files, m.clone()));
+        }
+    }
+    // whole segment files removed
+    for k in 0..log.files.len() {
+        let mut files = log.files.clone();
+        let gone = files.remove(k);
+        variants.push((format!("segment file {} removed", gone.0), files, Mutation::DeleteTxn(k as u16)));
+    }
+    let mut evals = 0u64;
+    for (n, (what, files, m)) in variants.iter().enumerate() {
+        let root = ctx.fast_scratch(&format!("c11-seg-m{}", n % 4));
+        let _ = std::fs::create_dir_all(root.join("segments"));
+        for (name, bytes) in files {
+            std::fs::write(root.join(name), bytes).map_err(|e| Fail::new("C11/harness/write", format!("{e}")))?;
+        }
+        for (name, bytes) in &log.side {
+            std::fs::write(root.join(name), bytes).map_err(|e| Fail::new("C11/harness/write", format!("{e}")))?;
+        }
+        let seg: Vec<u8> = files.iter().flat_map(|(_, b)| b.iter().copied()).collect();
+        let r = (|| -> Check {
+            let mut fs_bad = false;
+            match vkit::catch(|| recover_filesystem_store(&root, RecoveryAccessMode::ReadOnly)) {
+                Err(p) => vfail!(format!("C11/filesystem/panic/{}", name_of(m)), "multi-segment, {what}: {p}"),
+                Ok(Err(_)) => probe.class("multi-segment:typed-error"),
+                Ok(Ok(r)) => match judge_history("filesystem", m, &r.transactions, &whole, 0, &seg) {
+                    Ok(()) => probe.class("multi-segment:accepted-prefix"),
+                    Err(mut f) => {
+                        f.msg = format!("multi-segment log ({} files), {what}: {}", log.files.len(), f.msg);
+                        if ctx.is_known(&f.sig) {
+                            probe.known(f.sig);
+                            fs_bad = true;
+                        } else {
+                            return Err(f);
+                        }
+                    }
+                },
+            }
+            match vkit::catch(|| doctor_filesystem_store(&root)) {
+                Err(p) => vfail!(format!("C11/doctor/panic/{}", name_of(m)), "multi-segment, {what}: {p}"),
+                Ok(Err(_)) => {}
+                Ok(Ok(rep)) => vensure!(fs_bad || rep.recovery_certificate.committed_transactions_replayed as usize <= log.history.len(), format!("C11/doctor/reports-more-history-than-committed/{}", name_of(m)), "multi-segment, {what}"),
+            }
+            Ok(())
+        })();
+        let _ = std::fs::remove_dir_all(&root);
+        r?;
+        evals += 1;
+        if log.files.len() >= 2 {
+            probe.sub_nontrivial(format!("{n}:{what}").as_bytes());
+        }
+    }
+    probe.evals(evals);
+    Ok(())
+}
+
 pub fn subs(_ctx: &Ctx) -> Vec<Box<dyn Sub>> {
-    vec![prop_sub("systematic-log-mutation", 1_600, 40_000, case11(), check11)]
+    vec![prop_sub("systematic-log-mutation", 1_600, 40_000, case11(), check11), prop_sub("multi-segment-store-level-mutation", 1_200, 30_000, case_seg(), check_seg)]
 }
